@@ -19,7 +19,8 @@ def chance(draw, num, den):
     long composite draws Hypothesis still picks the first (simplest) element
     about twice as often as its share (measured), so callers pass nominal
     odds tuned against the class histogram reported in the evidence."""
-    return draw(st.sampled_from([True] * num + [False] * (den - num)))
+    # the over-represented first slot is given to False; the True slots follow it
+    return draw(st.sampled_from([False] + [True] * num + [False] * (den - num - 1))) if den > num else True
 
 
 SPECIES_NAMES = ["SA", "SB", "SC", "SD", "SE", "SF", "SG", "SH", "SI", "SJ"]
